@@ -283,12 +283,12 @@ def _run_emit(prog, rep: Report, bf: BufferFacts, f: Func, kind: str, role: str,
 
 
 def run(prog: Program, rep: Report):
-    r1_emit(prog, rep)
-    r2_observers(prog, rep)
-    r3_reset(prog, rep)
-    r4_ring(prog, rep)
-    r5_ring_slots(prog, rep)
-    r6_generic(prog, rep)
+    rep.attempt(lambda: r1_emit(prog, rep))
+    rep.attempt(lambda: r2_observers(prog, rep))
+    rep.attempt(lambda: r3_reset(prog, rep))
+    rep.attempt(lambda: r4_ring(prog, rep))
+    rep.attempt(lambda: r5_ring_slots(prog, rep))
+    rep.attempt(lambda: r6_generic(prog, rep))
 
 
 def r1_emit(prog, rep: Report):
@@ -777,6 +777,10 @@ def r6_generic(prog, rep: Report):
     buf = prog.cls("Buffer", BUF_MOD)
     pb = prog.cls("PrintBuffer", BUF_MOD)
     ring = prog.cls("CircularBuffer", "windpyutils.structures.circular_buffer")
+    rule_no_class_state(prog, rep, "C15.R7", [buf, pb, ring])
+    from .mixins import rule_fresh_iterator, rule_mixin_surface
+    rule_mixin_surface(prog, rep, "C15.R8", [ring])
+    rule_fresh_iterator(prog, rep, "C15.R9", [buf, ring])
     bfb, bfp = BufferFacts(prog, buf), BufferFacts(prog, pb)
     rep.rule("C15.R6", "derived state of the buffers is refreshed with its source: storage and cursor (ring: slots, write offset and "
              "size) are the primary state; any other field written outside the constructor and read somewhere is re-assigned or "
@@ -798,4 +802,7 @@ def r6_generic(prog, rep: Report):
             if d and len(d) == 2 and d[0] == f.self_name and d[1] in ring_fields:
                 mutated.add(d[1])
     rule_derived_state(prog, rep, "C15.R6", ring, mutated, public_entry_points(prog, ring), config=ring_fields - mutated, declare=False)
-    rule_no_class_state(prog, rep, "C15.R7", [buf, pb, ring])
+    # the reorder buffers: the pending dict and the next expected serial are the primary state; a remembered smallest held serial, a
+    # cached length ... must follow every store, emission and flush
+    for bf in (bfb, bfp):
+        rule_derived_state(prog, rep, "C15.R6", bf.cls, {bf.storage, bf.cursor}, public_entry_points(prog, bf.cls), declare=False)
